@@ -134,6 +134,12 @@ def build(case):
     lines, events, rubrics, order, hline = [], [], {}, [], {}
     files = {}
     n = 0
+    if case.get("front_title"):
+        # the document title given in the front matter (title_to_header): an ordinary level-1 heading for everything that follows
+        lines += ["---", "title: fmt0 front title", "---", ""]
+        events.append(("h", "fmt0", 1))
+        order.append("fmt0")
+        hline["fmt0"] = None
     for it in case["items"]:
         n += 1
         k = it[0]
@@ -256,7 +262,7 @@ def eval_case(ctx, case):
             f.write(body)
     src = os.path.join(d, "doc.md")
     try:
-        doc, wtext = drive.parse_pre(text, source_path=src, myst_enable_extensions=["colon_fence", "deflist"], report_level=2)
+        doc, wtext = drive.parse_pre(text, source_path=src, myst_enable_extensions=["colon_fence", "deflist"], report_level=2, myst_title_to_header=bool(case.get("front_title")))
     except Exception as e:  # noqa: BLE001
         sig = core.exc_signature(e)
         ctx.violation(f"raises:{sig['type']}:{sig['myst']}", f"parse raised {sig['type']}: {sig['msg']}", case, sig)
@@ -328,8 +334,10 @@ def eval_case(ctx, case):
         top_seq.append((m, cur))
     pos = {}
     for i, t in enumerate(doc.findall(nodes.Text)):
+        if isinstance(t.parent, nodes.literal) and isinstance(t.parent.parent.parent, nodes.field_body):
+            continue  # the front-matter value as shown in the field list
         for w in str(t).split():
-            if w[:2] in ("hd", "rb", "pp", "ip", "ih", "iq") and w not in pos:
+            if w[:2] in ("hd", "rb", "pp", "ip", "ih", "iq", "fm") and w not in pos:
                 pos[w] = (i, t)
     last = -1
     for m, sec_m in top_seq:
@@ -388,7 +396,7 @@ def run_shard(ctx):
             idx += 1
             if idx % ctx.nshards != ctx.shard:
                 continue
-            eval_case(ctx, {"kind": "levels", "items": [["h", L, "atx"] for L in seq]})
+            eval_case(ctx, {"kind": "levels", "items": [["h", L, "atx"] for L in seq], **({"front_title": True} if idx % 7 == 3 else {})})
             n += 1
             if (n & 0x3FF) == 0 and ctx.out_of_time():
                 complete = False
@@ -428,6 +436,8 @@ def run_shard(ctx):
                 items.append(["inc", R.choice([0, 0, 1, 2, 3, 5]), [R.randint(1, 6) for _ in range(R.randint(1, 3))], R.random() < 0.5,
                               [R.choice([0, 0, 1, 2]), [R.randint(1, 6) for _ in range(R.randint(0, 2))]] if R.random() < 0.4 else None])
         case = {"kind": "mixed", "items": items}
+        if R.random() < 0.12:
+            case["front_title"] = True
         eval_case(ctx, case)
         nh = sum(1 for it in items if it[0] in ("h", "c", "inc"))
         ctx.case(("mixed", repr(items)), nh >= 2)
